@@ -54,6 +54,7 @@ def main():
             f[k] = not f[k]
         if op == "whitsvc" and f["lc"]:
             f["int16"] = True
+        x01.PVAL[0] = rng.choice([0.5, 0.9, 0.5])
         try:
             x01.call(op, f)
             outcome = "ok"
